@@ -8,6 +8,7 @@ package main
 import (
 	"fmt"
 	"go/token"
+	"go/types"
 	"math"
 	"strings"
 
@@ -19,18 +20,49 @@ const zInf = math.MaxInt32
 type zone struct {
 	idx map[ssa.Value]int
 	m   [][]int64 // m[i][j] = bound on (i - j); node 0 is the constant zero
+	// fld: loads of the same field of the same object denote one node until the field is stored to
+	fld map[string]ssa.Value
+	// slen: the node that stands for the length of a slice value
+	slen map[ssa.Value]ssa.Value
 }
 
 func newZone() *zone {
-	z := &zone{idx: map[ssa.Value]int{}}
+	z := &zone{idx: map[ssa.Value]int{}, fld: map[string]ssa.Value{}, slen: map[ssa.Value]ssa.Value{}}
 	z.m = [][]int64{{0}}
 	return z
 }
 
+func fieldLoadKey(v ssa.Value) string {
+	u, ok := v.(*ssa.UnOp)
+	if !ok || u.Op != token.MUL {
+		return ""
+	}
+	fa, ok := u.X.(*ssa.FieldAddr)
+	if !ok {
+		return ""
+	}
+	return fmt.Sprintf("%p.%d", fa.X, fa.Field)
+}
+
+// lenOf returns the value whose node stands for len(v).
+func (z *zone) lenOf(v ssa.Value) ssa.Value {
+	if w, ok := z.slen[v]; ok {
+		return w
+	}
+	z.slen[v] = v // a slice value doubles as the name of its own length
+	return v
+}
+
 func (z *zone) clone() *zone {
-	n := &zone{idx: make(map[ssa.Value]int, len(z.idx))}
+	n := &zone{idx: make(map[ssa.Value]int, len(z.idx)), fld: make(map[string]ssa.Value, len(z.fld)), slen: make(map[ssa.Value]ssa.Value, len(z.slen))}
 	for k, v := range z.idx {
 		n.idx[k] = v
+	}
+	for k, v := range z.fld {
+		n.fld[k] = v
+	}
+	for k, v := range z.slen {
+		n.slen[k] = v
 	}
 	n.m = make([][]int64, len(z.m))
 	for i := range z.m {
@@ -40,6 +72,13 @@ func (z *zone) clone() *zone {
 }
 
 func (z *zone) node(v ssa.Value) int {
+	if k := fieldLoadKey(v); k != "" {
+		if first, ok := z.fld[k]; ok {
+			v = first
+		} else {
+			z.fld[k] = v
+		}
+	}
 	if i, ok := z.idx[v]; ok {
 		return i
 	}
@@ -170,6 +209,31 @@ func (z *zone) assumeCmp(op token.Token, x, y ssa.Value, outcome bool) {
 // define applies the meaning of an integer-valued instruction.
 func (z *zone) define(in ssa.Instruction) {
 	switch w := in.(type) {
+	case *ssa.Store:
+		if fa, ok := w.Addr.(*ssa.FieldAddr); ok {
+			delete(z.fld, fmt.Sprintf("%p.%d", fa.X, fa.Field))
+		}
+	case *ssa.Slice:
+		if _, isSlice := w.Type().Underlying().(*types.Slice); !isSlice {
+			return
+		}
+		switch {
+		case w.Low == nil && w.High != nil:
+			// len(x[:h]) == h
+			t := z.node(z.lenOf(w))
+			n, o := z.term(w.High)
+			z.add(t, 0, n, o, 0)
+			z.add(n, o, t, 0, 0)
+		case w.Low == nil && w.High == nil:
+			if _, isSl := w.X.Type().Underlying().(*types.Slice); isSl {
+				z.slen[w] = z.lenOf(w.X)
+			}
+		}
+		z.add(0, 0, z.node(z.lenOf(w)), 0, 0)
+	case *ssa.ChangeType:
+		if _, isSlice := w.Type().Underlying().(*types.Slice); isSlice {
+			z.slen[w] = z.lenOf(w.X)
+		}
 	case *ssa.BinOp:
 		if !isIntType(w.Type()) {
 			return
@@ -211,6 +275,13 @@ func (z *zone) define(in ssa.Instruction) {
 		case "len", "cap":
 			t := z.node(w)
 			z.add(0, 0, t, 0, 0) // 0 - len <= 0
+			if b.Name() == "len" && len(w.Call.Args) == 1 {
+				if _, isSlice := w.Call.Args[0].Type().Underlying().(*types.Slice); isSlice {
+					l := z.node(z.lenOf(w.Call.Args[0]))
+					z.add(t, 0, l, 0, 0)
+					z.add(l, 0, t, 0, 0)
+				}
+			}
 		case "max", "min":
 			if len(w.Call.Args) != 2 || !isIntType(w.Type()) {
 				return
@@ -283,12 +354,26 @@ func checkZoneFunction(p *Prog, fn *ssa.Function, nonNegOnNilErr map[*ssa.Functi
 func zoneWalk(p *Prog, fn *ssa.Function, nonNegOnNilErr map[*ssa.Function]bool,
 	isSuccess func(rt *ssa.Return) bool, oblig func(z *zone, rt *ssa.Return) (bool, string),
 	atBlock func(b, from *ssa.BasicBlock, z *zone) (stop, ok bool, why string)) *zonePathResult {
+	return zoneWalkFrom(p, fn, nil, nonNegOnNilErr, isSuccess, oblig, atBlock, nil)
+}
+
+// zoneWalkFrom: as zoneWalk, starting at block start (nil = entry; phis of the
+// start block stay unconstrained, which is how one iteration of a loop is
+// analysed from its header), with an optional instruction hook that can end a
+// path with a verdict. A path that comes back to the start block ends silently.
+func zoneWalkFrom(p *Prog, fn *ssa.Function, start *ssa.BasicBlock, nonNegOnNilErr map[*ssa.Function]bool,
+	isSuccess func(rt *ssa.Return) bool, oblig func(z *zone, rt *ssa.Return) (bool, string),
+	atBlock func(b, from *ssa.BasicBlock, z *zone) (stop, ok bool, why string),
+	atInstr func(in ssa.Instruction, z *zone) (stop, ok bool, why string)) *zonePathResult {
 	res := &zonePathResult{}
 	onPath := map[*ssa.BasicBlock]bool{}
 	var walk func(b *ssa.BasicBlock, from *ssa.BasicBlock, z *zone, trail []*ssa.BasicBlock)
 	walk = func(b *ssa.BasicBlock, from *ssa.BasicBlock, z *zone, trail []*ssa.BasicBlock) {
 		if res.undecided != "" {
 			return
+		}
+		if start != nil && b == start && from != nil {
+			return // one trip around the loop is complete
 		}
 		if onPath[b] {
 			res.undecided = fmt.Sprintf("the function has a loop through block %d: the zone analysis handles loop-free code only", b.Index)
@@ -320,6 +405,9 @@ func zoneWalk(p *Prog, fn *ssa.Function, nonNegOnNilErr map[*ssa.Function]bool,
 					z.add(t, 0, n, o, 0)
 					z.add(n, o, t, 0, 0)
 				}
+				if _, isSlice := ph.Type().Underlying().(*types.Slice); idx >= 0 && isSlice {
+					z.slen[ph] = z.lenOf(ph.Edges[idx])
+				}
 			}
 		}
 		if atBlock != nil && !z.infeasible() {
@@ -337,6 +425,20 @@ func zoneWalk(p *Prog, fn *ssa.Function, nonNegOnNilErr map[*ssa.Function]bool,
 			}
 		}
 		for _, in := range b.Instrs {
+			if atInstr != nil && !z.infeasible() {
+				if stop, ok, why := atInstr(in, z); stop {
+					res.paths++
+					res.successReturns++
+					if !ok {
+						res.bad++
+						if res.witness == nil {
+							res.witness = blocksString(p, trail)
+							res.detail = why
+						}
+					}
+					return
+				}
+			}
 			z.define(in)
 			switch w := in.(type) {
 			case *ssa.Return:
@@ -344,7 +446,7 @@ func zoneWalk(p *Prog, fn *ssa.Function, nonNegOnNilErr map[*ssa.Function]bool,
 				if z.infeasible() {
 					return
 				}
-				if isSuccess(w) {
+				if isSuccess != nil && isSuccess(w) {
 					res.successReturns++
 					if ok, why := oblig(z, w); !ok {
 						res.bad++
@@ -400,7 +502,9 @@ func zoneWalk(p *Prog, fn *ssa.Function, nonNegOnNilErr map[*ssa.Function]bool,
 			}
 		}
 	}
-	if len(fn.Blocks) > 0 {
+	if start != nil {
+		walk(start, nil, newZone(), nil)
+	} else if len(fn.Blocks) > 0 {
 		walk(fn.Blocks[0], nil, newZone(), nil)
 	}
 	return res
